@@ -60,7 +60,8 @@ def conc(c, v):
         cv = v.concrete()
         if cv is None:
             n = v.num if isinstance(v.num, int) else c.concretize_int(v.num)
-            d = v.den if isinstance(v.den, int) else c.concretize_int(v.den)
+            dd = v.den
+            d = dd if isinstance(dd, int) else c.concretize_int(dd)
             from fractions import Fraction
             cv = Fraction(n, d)
         return float(cv)
